@@ -76,12 +76,12 @@ theorem hash_by_default_scheme (c : Cfg) (cat : Cat) (draw : Nat) (fv : Int) (d 
           exact ⟨rfl, s, r, hmem, hname, hr, by simp [hc]⟩
         | some cls =>
           simp only [hc] at hh
-          cases hg : generateRounds cls draw fv with
+          cases hg : generateChecked cls draw fv with
           | error e => simp [hg, Except.map] at hh
           | ok k =>
             simp only [hg, Except.map, Except.ok.injEq, Prod.mk.injEq] at hh
             obtain ⟨rfl, rfl⟩ := hh
-            exact ⟨rfl, s, r, hmem, hname, hr, by simp [hc]; exact hg⟩
+            exact ⟨rfl, s, r, hmem, hname, hr, by simp [hc]; exact (Lemmas.Rounds.generateChecked_ok cls draw fv k hg).1⟩
 
 /-- (False, None) / (True, None) / (True, new): exactly by "verifies" and "needs update"; `new` is what
     `hash()` would produce for the category (default scheme, configured cost) -/
